@@ -17,7 +17,7 @@
    Regexes are arbitrary functions [re_find : key -> option (whole match, [(group name, text)])]
    (oracle for regexp.FindStringSubmatch + SubexpNames): every theorem holds for all of them. *)
 From stdpp Require Import gmap.
-From GS Require Import Base.Bytes Model.K8s Proofs.K8s.
+From GS Require Import Base.Bytes Model.K8s Proofs.K8s Model.K8sAsync Proofs.K8sAsync.
 
 (* The memo invariant, after ANY history: a memoised instance is the one derived from a pod
    version that is stored now, is indexable and holds that IP (so never from a replaced or
@@ -126,3 +126,85 @@ Theorem C13_needs_informer_contract :
     forall p, ~ holds (store (run cfg init ls)) ip p.
 Proof. exact needs_informer_contract_ex. Qed.
 Print Assumptions C13_needs_informer_contract.
+
+(* ------------------------------------------------------------------------------------------
+   Where C13 ends.  Model/K8sAsync.v refines the labels to the critical sections of the Go code:
+     IndexUpdate d      the informer changes its indexer and queues the notification
+     HandlerCall        the listener runs OnAdd/OnUpdate/OnDelete for the oldest notification
+     LookupReadMemo t ip | LookupReturnHit t | LookupReadIndex t | LookupWriteMemo t
+                        the three lock scopes of instanceFromCache (no lock is held between them)
+   [arun cfg ainit als] = Some s: the label sequence als is executable and leads to s;
+   [a_out s]: the answers returned so far, (lookup id, ip, answer). *)
+
+(* The synchronous model is the special case: a run in which every HandlerCall immediately
+   follows its IndexUpdate and the sections of every lookup are adjacent ([serial als ls]) ends in
+   the state of the synchronous history ls, nothing queued or in flight, with the same answers ...*)
+Theorem C13_async_refines_sync : forall cfg als ls s',
+  serial als ls -> arun cfg ainit als = Some s' ->
+  a_store s' = store (run cfg init ls) /\ a_memo s' = memo (run cfg init ls) /\
+  a_queue s' = [] /\ a_pending s' = ∅ /\
+  map (fun o => (snd (fst o), snd o)) (a_out s') = sync_answers cfg init ls.
+Proof. exact async_refines_sync. Qed.
+Print Assumptions C13_async_refines_sync.
+
+(* ... and every synchronous history is such a run, so the theorems above are about these runs. *)
+Theorem C13_async_sync_runs_exist : forall cfg ls,
+  exists als s', serial als ls /\ arun cfg ainit als = Some s'.
+Proof. exact sync_is_async. Qed.
+Print Assumptions C13_async_sync_runs_exist.
+
+(* Outside that special case C13's conclusion is FALSE for the code as it is.  A schedule of
+   informer deliveries (all within the informer contract) and one lookup, after which every
+   handler has run, no lookup is in flight, no pod holds ip - and every lookup of ip, in every
+   continuation without further informer activity, answers the deleted pod's instance i.
+   (Witness: the delete lands between LookupReadIndex and LookupWriteMemo.) *)
+Theorem C13_async_stale_refuted :
+  exists cfg als ip i s,
+    ahistory_ok cfg ainit als /\ arun cfg ainit als = Some s /\
+    a_queue s = [] /\ a_pending s = ∅ /\
+    (forall p, ~ holds (a_store s) ip p) /\
+    (exists s1, arun cfg s [LookupReadMemo 1 ip; LookupReturnHit 1] = Some s1 /\
+                a_out s1 = a_out s ++ [(1%N, ip, Some i)]) /\
+    forall more s', no_index_update more -> arun cfg s more = Some s' ->
+      a_memo s' !! ip = Some (Some i) /\
+      exists new, a_out s' = a_out s ++ new /\ Forall (fun o => snd (fst o) = ip -> snd o = Some i) new.
+Proof. exact async_stale_refuted. Qed.
+Print Assumptions C13_async_stale_refuted.
+
+(* The exact boundary.  [ainv]: every memoised instance, and every instance a lookup has read
+   from the index and not yet memoised, is current (derived from a pod holding the IP now) or
+   doomed (a queued notification will drop it).  Every step keeps ainv, except precisely a
+   HandlerCall that is not [handler_safe]: it handles the oldest notification d while some
+   lookup holds a computed instance that only d justifies. *)
+Theorem C13_async_coherence_exact : forall cfg s l s',
+  ainv cfg s ->
+  match l with IndexUpdate d => informer_ok (a_store s) (label_of d) | _ => True end ->
+  astep cfg s l = Some s' ->
+  (ainv cfg s' <-> match l with HandlerCall => handler_safe cfg s | _ => True end).
+Proof. exact astep_ainv_exact. Qed.
+Print Assumptions C13_async_coherence_exact.
+
+(* Hence on every schedule all of whose handler calls are harmless, staleness is bounded by the
+   notification queue: a memoised instance is current or its invalidation is still queued, and
+   whenever the queue is empty memo coherence holds as in C13_memo_coherent. *)
+Theorem C13_async_safe_schedules : forall cfg als s',
+  ahistory_ok cfg ainit als -> handlers_safe cfg ainit als -> arun cfg ainit als = Some s' ->
+  (forall ip i, a_memo s' !! ip = Some (Some i) ->
+     (exists p, holds (a_store s') ip p /\ i = derive cfg p) \/
+     (exists d, In d (a_queue s') /\ invalidates d ip)) /\
+  (a_queue s' = [] ->
+   forall ip i, a_memo s' !! ip = Some (Some i) -> exists p, holds (a_store s') ip p /\ i = derive cfg p).
+Proof. exact async_safe_schedules. Qed.
+Print Assumptions C13_async_safe_schedules.
+
+(* In particular when no handler call happens while a lookup is between its index read and its
+   memo write ([handlers_calm]); lookups may overlap IndexUpdates and each other freely. *)
+Theorem C13_async_bounded_staleness : forall cfg als s',
+  ahistory_ok cfg ainit als -> handlers_calm cfg ainit als -> arun cfg ainit als = Some s' ->
+  (forall ip i, a_memo s' !! ip = Some (Some i) ->
+     (exists p, holds (a_store s') ip p /\ i = derive cfg p) \/
+     (exists d, In d (a_queue s') /\ invalidates d ip)) /\
+  (a_queue s' = [] ->
+   forall ip i, a_memo s' !! ip = Some (Some i) -> exists p, holds (a_store s') ip p /\ i = derive cfg p).
+Proof. exact async_bounded_staleness. Qed.
+Print Assumptions C13_async_bounded_staleness.
